@@ -28,6 +28,8 @@ pub enum HOp {
     },
     Edit { input: u8, kind: u8 },
     ToggleFail,
+    /// The record of one target is damaged (truncated / overwritten) behind zinoma's back.
+    Corrupt(u8),
 }
 
 #[derive(Debug, Clone, Serialize, Deserialize)]
@@ -44,6 +46,7 @@ pub fn c18_case() -> impl Strategy<Value = C18Case> {
         5 => (0u8..2, 0u8..11, prop::option::weighted(0.25, 0u8..7), 0u8..6).prop_map(|(entry, route, clean, how)| HOp::Invoke { entry, route, clean, how }),
         3 => (0u8..6, 0u8..3).prop_map(|(input, kind)| HOp::Edit { input, kind }),
         1 => Just(HOp::ToggleFail),
+        1 => (0u8..7).prop_map(HOp::Corrupt),
     ];
     (any::<bool>(), prop::collection::vec(op, 3..=9), any::<bool>()).prop_map(|(root_named, ops, import_via_symlink)| C18Case {
         root_named,
@@ -224,6 +227,19 @@ pub fn eval_c18(case: &C18Case) -> CaseResult {
                     let _ = std::fs::remove_file(sb.path("fail"));
                 }
                 history.push(format!("f {}", if failing { "now fails" } else { "now succeeds" }));
+            }
+            HOp::Corrupt(t) => {
+                let t = *t as usize % NT;
+                let dir = if t == 0 || t == 2 { "proj" } else { "proj/sub" };
+                let p = sb.path(&format!("{}/.zinoma/{}.checksums", dir, l.id(t)));
+                if let Ok(bytes) = std::fs::read(&p) {
+                    let cut = bytes.len() / 2;
+                    let _ = std::fs::write(&p, &bytes[..cut]);
+                    // a damaged record is discarded: that target (only) has to run again
+                    rec[t] = Rec::None;
+                    saw_disturbance = true;
+                    history.push(format!("record of {} truncated to {} bytes", l.id(t), cut));
+                }
             }
             HOp::Edit { input, kind } => {
                 counter += 1;
